@@ -11,4 +11,8 @@ def run(ck):
     ck.out_of_scope += ['soundness of composed programs (needs induction over expressions -- a proof, not a bounded check)', 'let scoping, templates, regex operators, split/to_integer, the parser',
                         'If / Index / Access / IsMemberOf / Scope (their signature inspects nested values; not encoded yet)']
     milu_ops.run_all(ck, ck.dbs['milu'])
+    milu_ops.spec_views(ck, ck.dbs['milu'], thorough=(ck.tier == 'thorough'))
+    milu_ops.spec_arity(ck)
+    milu_ops.spec_access_tuple(ck, ck.dbs['milu'])
     milu_ops.spec_type_eq(ck, ck.dbs['milu'])
+    milu_ops.spec_accessors(ck)
